@@ -931,11 +931,17 @@ def run(tier):
             'ddmin\'s exit test counts expression-count difference, which a '
             'size-increasing accepted mutator can keep non-zero',
         ])
-    c11.substitute_taint(chk, prog, 'C03.R1')
-    rule_r2(chk, prog)
-    rule_r3(chk, prog)
-    rule_r4(chk, prog)
-    rule_r5(chk, prog)
+    chk.guard(c11.substitute_taint, chk, prog, 'C03.R1')
+    sub11 = Check('C11', 'other', tier, [], [])
+    chk.guard(c11.rule_r6, sub11, prog)
+    chk.adopt('C03.R6', 'formal->actual substitution is simultaneous (shared '
+              'with C11.R6): iterated one-formal-at-a-time substitution '
+              're-scans inserted arguments, the instantiated body can double '
+              'per parameter', sub11)
+    chk.guard(rule_r2, chk, prog)
+    chk.guard(rule_r3, chk, prog)
+    chk.guard(rule_r4, chk, prog)
+    chk.guard(rule_r5, chk, prog)
     extra = None
     if tier == 'thorough':
         from .. import selftest
